@@ -425,7 +425,7 @@ func c19Histories(c *Ctx) {
 			rjson.HandleObjectValues(d, f, b)
 		}})
 	}
-	for _, g := range []int{-1, 1 << 40, 1} {
+	for _, g := range []int{-1, off40, 1} {
 		g := g
 		dist = append(dist, disturbance{fmt.Sprintf("handler returning offset %d at call 1", g), func(d []byte, b *rjson.Buffer) {
 			f := &failAtHandler{k: 1, garbage: g}
